@@ -44,6 +44,9 @@ static const struct fixed fixed_tab[] = {
 	{ 'x', sizeof(int64_t), 0 }, { 't', sizeof(uint64_t), 0 },
 	{ 'f', sizeof(float), 0 },   { 'd', sizeof(double), 0 },
 	{ 's', sizeof(const char *), 0 },
+#ifdef _MPT_FLOAT_EXTENDED_H
+	{ 'e', sizeof(long double), 0 }, { 'E', sizeof(struct iovec), 0 },
+#endif
 	/* vectors of the scalars */
 	{ 'C', sizeof(struct iovec), 0 },
 	{ 'B', sizeof(struct iovec), 0 }, { 'Y', sizeof(struct iovec), 0 },
